@@ -17,7 +17,7 @@ from mitxgraders.exceptions import (InvalidInput, ConfigError,
                                     StudentFacingError, MissingInput, MITxError)
 from mitxgraders.helpers.validatorfuncs import Positive, NonNegative, PercentageString
 from mitxgraders.helpers.math_helpers import MathMixin
-from mitxgraders.helpers.calc import evaluator, DEFAULT_VARIABLES, parse
+from mitxgraders.helpers.calc import evaluator, DEFAULT_VARIABLES, parse, CalcError
 from mitxgraders.helpers.calc.mathfuncs import merge_dicts
 
 
@@ -199,7 +199,14 @@ class SummationGraderBase(AbstractGrader, MathMixin):
             if structured_input[key] == '':
                 msg = "Please enter a value for {key}, it cannot be empty."
                 raise MissingInput(msg.format(key=key))
-        self.validate_user_dummy_variable(structured_input[self.wording['adjective'] + '_variable'])
+        dummy_key = self.wording['adjective'] + '_variable'
+        try:
+            self.validate_user_dummy_variable(structured_input[dummy_key])
+        except InvalidInput as error:
+            if self.true_input_positions[dummy_key] is None:
+                # The variable was not entered by the student: the fault is the author's
+                raise ConfigError(str(error))
+            raise
 
         # Now perform the computations
         try:
@@ -213,6 +220,16 @@ class SummationGraderBase(AbstractGrader, MathMixin):
         # This is a simpler version of the raw_check function from FormulaGrader,
         # which is complicated by sibling variables and comparers
         
+        # Faults in the author's own expressions are configuration errors
+        for key in answer:
+            if key == self.wording['adjective'] + '_variable':
+                continue
+            try:
+                parse(answer[key])
+            except CalcError as error:
+                msg = "Error with author's stored answer: {}"
+                raise ConfigError(msg.format(str(error)))
+
         # Generate samples
         var_samples, func_samples = self.gen_var_and_func_samples(answer, student_input)
         
